@@ -1,0 +1,48 @@
+//go:build verif
+
+package regex
+
+// Contracts for govc (see /verif/DESIGN.md; oracle: /verif/spec/60_regex.gvs).
+// Comment-only file.
+
+//@ func (*Schema).newDocumentError(code, idx, c)
+//@   props C07 C17
+//@   requires s != nil && errArity(code) == 1
+//@   nopanic
+//@   ensures result.code == code && result.index == idx && result.hasIndex && result.file == s.file && !result.prepared
+
+// C14/C18: the pattern is the text between the opening slash and the first
+// unescaped slash; Len is the length of the /P/ token.
+//@ func (*Schema).doCompile()
+//@   props C07 C14 C18
+//@   requires s != nil && s.file != nil && len(s.pattern) == 0
+//@   nopanic
+//@   modifies s.pattern
+//@   ensures result != nil ==> typeis(result, errors.DocumentError) && unbox(result, errors.DocumentError).file == s.file
+//@   ensures result != nil ==> (unbox(result, errors.DocumentError).code == errors.ErrEmptySchema && !unbox(result, errors.DocumentError).hasIndex && len(s.file.content) == 0) || (unbox(result, errors.DocumentError).hasIndex && unbox(result, errors.DocumentError).index < len(s.file.content))
+//@   ensures result == nil ==> len(s.pattern) >= 1 && closesAt(s.file.content, len(s.pattern) + 1) && (forall j :: 0 <= j && j < len(s.pattern) ==> s.pattern[j] == s.file.content[1 + j])
+//@   ensures (exists k :: closesAt(s.file.content, k) && k >= 2) && s.file.content[0] == '/' ==> (result == nil || unbox(result, errors.DocumentError).code == errors.ErrRegexInvalid)
+//@   loop 0 invariant rangeindex < len(content) - 1 && content == s.file.content && len(content) >= 1 && content[0] == '/'
+//@   loop 0 invariant len(s.pattern) == 0
+//@   loop 0 invariant escaped == (bsRun(content, rangeindex + 2) % 2 == 1)
+//@   loop 0 invariant forall j :: 1 <= j && j <= rangeindex + 1 ==> !(content[j] == '/' && bsRun(content, j) % 2 == 0)
+//@   loop 0 decreases len(content) - rangeindex
+
+//@ func (*Schema).compile()
+//@   props C07 C14 C18 C11
+//@   requires s != nil && s.file != nil && (!s.compileOnce.once.fired ==> len(s.pattern) == 0)
+//@   requires s.compileOnce.once.fired && s.compileOnce.err == nil ==> (len(s.pattern) >= 1 && closesAt(s.file.content, len(s.pattern) + 1))
+//@   nopanic
+//@   modifies s.pattern, s.compileOnce.err, s.compileOnce.once.fired
+//@   ensures s.compileOnce.once.fired && result == s.compileOnce.err
+//@   ensures old(s.compileOnce.once.fired) ==> result == old(s.compileOnce.err) && s.pattern == old(s.pattern)
+//@   ensures result == nil ==> len(s.pattern) >= 1 && closesAt(s.file.content, len(s.pattern) + 1)
+
+// C14/C18: Len is the length of the /P/ token
+//@ func (*Schema).Len()
+//@   props C14 C18
+//@   requires s != nil && s.file != nil && (!s.compileOnce.once.fired ==> len(s.pattern) == 0)
+//@   requires s.compileOnce.once.fired && s.compileOnce.err == nil ==> (len(s.pattern) >= 1 && closesAt(s.file.content, len(s.pattern) + 1))
+//@   nopanic
+//@   modifies s.pattern, s.compileOnce.err, s.compileOnce.once.fired
+//@   ensures result1 == nil ==> closesAt(s.file.content, result0 - 1) && result0 >= 3 && result0 <= len(s.file.content)
